@@ -1,5 +1,5 @@
 (* C18 through the NFSv4.0 model - the property theorems, and nothing else. *)
-From VF Require Import Nfs40.Model Nfs40.ProofsInv Nfs40.ProofsInv2.
+From VF Require Import Nfs40.Model Nfs40.ProofsInv Nfs40.ProofsInv2 Nfs40.ProofsAux.
 Open Scope N_scope.
 
 (* open_close_balanced: for every history (any interleaving of critical
@@ -49,3 +49,17 @@ Proof.
   intros evs. destruct (run_inv evs init Inv_init eq_refl) as (I&L&_). split; assumption.
 Qed.
 Print Assumptions accounting_invariant.
+
+(* open_stays_resolvable: in every reachable state the opened-files pool has
+   an entry for the handle of every open-owner file in the tables, so PUTFH
+   of that handle succeeds even after the file was unlinked (linked = false) *)
+Theorem open_stays_resolvable : forall evs o,
+  In o (st_oofs (state_after evs)) -> of_live o = true ->
+  resolve_fh (FhFile (of_handle o) false) (state_after evs) = inl (CurLeaf (of_handle o)).
+Proof. exact ProofsAux.open_stays_resolvable. Qed.
+Print Assumptions open_stays_resolvable.
+
+(* useCount of a handle in the pool = number of open-owner files on it *)
+Theorem pool_use_count_exact : forall evs h, use_of (state_after evs) h = live_on (state_after evs) h.
+Proof. exact ProofsAux.pool_use_count_exact. Qed.
+Print Assumptions pool_use_count_exact.
